@@ -5,6 +5,7 @@ pub mod c07;
 pub mod c08;
 pub mod c08_tok;
 pub mod c16;
+pub mod c16_fmtmodel;
 pub mod c12;
 pub mod c12_more;
 pub mod c20;
